@@ -19,11 +19,20 @@ def _short_smgen_timer():
     SM.threading = types.SimpleNamespace(Timer=_T)
 
 
+_BLOCKS = {}
+
+
 def one(req):
     if req.get("strategy") == "SMGen":
         _short_smgen_timer()
     try:
-        blk = D.build(req["desc"]).block
+        if req.get("key") is not None:
+            # jobs that name the same key are calls on ONE block object
+            if req["key"] not in _BLOCKS:
+                _BLOCKS[req["key"]] = D.build(req["desc"]).block
+            blk = _BLOCKS[req["key"]]
+        else:
+            blk = D.build(req["desc"]).block
         exps = O.synth(blk, req["n"], req["strategy"])
         return {"ok": exps}
     except Exception as e:                      # reported to the parent, which decides what it means
